@@ -129,6 +129,10 @@ func buildOverlay(dirs []string, withTest bool) map[string][]byte {
 		fmt.Fprintln(os.Stderr, "seam rewriting failed:", err)
 		ov["/repo/__verif_seam_error__.go"] = []byte("package broken // " + err.Error())
 	}
+	if err := applyYields(ov); err != nil {
+		fmt.Fprintln(os.Stderr, "yield rewriting failed:", err)
+		ov["/repo/__verif_seam_error__.go"] = []byte("package broken // " + err.Error())
+	}
 	return ov
 }
 
